@@ -95,54 +95,62 @@ func (context *Context) IsMapOfKinds(def ast.Type, kinds ...ast.Kind) bool {
 }
 
 func (context *Context) ResolveToComposableSlot(def ast.Type) (ast.Type, bool) {
-	if def.IsComposableSlot() {
-		return def, true
-	}
+	// references already followed: types can be recursive (`A: [...A]`)
+	visited := make(map[string]struct{})
 
-	if def.IsArray() {
-		return context.ResolveToComposableSlot(def.AsArray().ValueType)
-	}
+	for {
+		if def.IsComposableSlot() {
+			return def, true
+		}
 
-	if def.IsRef() {
-		referredObj, found := context.LocateObject(def.AsRef().ReferredPkg, def.AsRef().ReferredType)
+		if def.IsArray() {
+			def = def.AsArray().ValueType
+			continue
+		}
+
+		if !def.IsRef() {
+			return ast.Type{}, false
+		}
+
+		ref := def.AsRef()
+		if _, seen := visited[ref.String()]; seen {
+			return ast.Type{}, false
+		}
+		visited[ref.String()] = struct{}{}
+
+		referredObj, found := context.LocateObject(ref.ReferredPkg, ref.ReferredType)
 		if !found {
 			return ast.Type{}, false
 		}
 
-		return context.ResolveToComposableSlot(referredObj.Type)
+		def = referredObj.Type
 	}
-
-	return ast.Type{}, false
 }
 
 func (context *Context) ResolveToStruct(def ast.Type) bool {
-	if def.IsStruct() {
-		return true
-	}
-
-	if !def.IsRef() {
-		return false
-	}
-
-	referredObj, found := context.LocateObject(def.AsRef().ReferredPkg, def.AsRef().ReferredType)
-	if !found {
-		return false
-	}
-
-	return context.ResolveToStruct(referredObj.Type)
+	return context.ResolveRefs(def).IsStruct()
 }
 
 func (context *Context) ResolveRefs(def ast.Type) ast.Type {
-	if !def.IsRef() {
-		return def
+	// references already followed: aliases can form cycles (`A: B`, `B: A`)
+	visited := make(map[string]struct{})
+
+	for def.IsRef() {
+		ref := def.AsRef()
+		if _, seen := visited[ref.String()]; seen {
+			return def
+		}
+		visited[ref.String()] = struct{}{}
+
+		referredObj, found := context.LocateObject(ref.ReferredPkg, ref.ReferredType)
+		if !found {
+			return def
+		}
+
+		def = referredObj.Type
 	}
 
-	referredObj, found := context.LocateObject(def.AsRef().ReferredPkg, def.AsRef().ReferredType)
-	if !found {
-		return def
-	}
-
-	return context.ResolveRefs(referredObj.Type)
+	return def
 }
 
 func (context *Context) BuildersForType(typeDef ast.Type) ast.Builders {
